@@ -7,6 +7,9 @@ pub open spec fn argsort_values<T>(s: Seq<T>) -> Set<T> { s.to_set() }
 
 // `idx` is a permutation of 0..n (all entries in range and pairwise different: a bijection by counting),
 // `after` is `before` rearranged by it (after[i] == before[idx[i]]) and `after` is ascending.
+// (opaque: a caller whose loops are not isolated has the whole body in one context, and the last clause chains after[i] -> after[i+1];
+//  `reveal(is_argsort_of)` in the lemmas that need a clause)
+#[verifier::opaque]
 pub open spec fn is_argsort_of<T: PartialOrd>(before: Seq<T>, after: Seq<T>, idx: Seq<usize>) -> bool {
     &&& idx.len() == before.len()
     &&& after.len() == before.len()
